@@ -112,6 +112,39 @@ Proof.
     destruct (H _ _ _ H1 H2) as [s Hs]. congruence.
 Qed.
 
+(** ** the length of the written line; dropping trailing values keeps the leading columns *)
+Theorem written_line_length_exact specs vals line : write_values specs vals = Ok line ->
+  length line = list_sum (firstn (length vals) (map width specs)) /\
+  (length line <= list_sum (map width specs))%nat /\
+  ((length specs <= length vals)%nat -> length line = list_sum (map width specs)).
+Proof.
+  unfold write_values. destruct (write_fields specs vals) as [l|e] eqn:W; cbn [bind]; [|discriminate].
+  intro H; inversion H; subst. destruct (write_fields_widths _ _ _ W) as [A B].
+  assert (E : length (concat l) = list_sum (firstn (length vals) (map width specs))).
+  { rewrite concat_length_sum, A, B, Nat.min_comm, <- firstn_firstn.
+    rewrite (firstn_all2 (n := length specs) (map width specs)) by (rewrite map_length; lia). reflexivity. }
+  split; [exact E|]. split.
+  - rewrite E. rewrite <- (firstn_all (map width specs)) at 2.
+    destruct (Nat.le_ge_cases (length vals) (length (map width specs))) as [L|L].
+    + apply list_sum_firstn_mono; exact L.
+    + rewrite (firstn_all2 (n := length vals) (map width specs) L), firstn_all. lia.
+  - intro L. rewrite E, firstn_all2; [reflexivity|rewrite map_length; exact L].
+Qed.
+
+Theorem write_prefix specs : forall vals l k, write_fields specs vals = Ok l ->
+  write_fields specs (firstn k vals) = Ok (firstn k l) /\
+  concat l = (concat (firstn k l) ++ concat (skipn k l))%list.
+Proof.
+  intros vals l k H. split; [|rewrite <- concat_app, firstn_skipn; reflexivity].
+  revert vals l k H. induction specs as [|f fs IH]; intros vals l k; cbn [write_fields].
+  - intro H; inversion H; subst. destruct (firstn k vals); rewrite firstn_nil; reflexivity.
+  - destruct vals as [|v vs]; [intro H; inversion H; subst; rewrite !firstn_nil; reflexivity|].
+    destruct (fmt_field f v) as [s|e] eqn:E; cbn [bind]; [|discriminate].
+    destruct (write_fields fs vs) as [r|e] eqn:R; cbn [bind]; [|discriminate].
+    intro H; inversion H; subst. destruct k as [|k]; cbn [firstn write_fields]; [reflexivity|].
+    rewrite E, (IH _ _ k R). reflexivity.
+Qed.
+
 (** non-vacuity: two values into a four-field record, as written to a file (newline) *)
 Example ex_short_write : write_fields ex_specs [XStr (s2l "dfalt"); XInt 2] = Ok [s2l "dfalt"; s2l "    2"].
 Proof. vm_compute. reflexivity. Qed.
@@ -124,3 +157,5 @@ Proof. vm_compute. reflexivity. Qed.
 Example ex_raise : write_fields ex_specs [XStr (s2l "dfalt"); XInt 1234567; XNone; XNone] = Raise ValueError
                    /\ fmt_field {| fw := 5; fp := None; ft := Td |} (XInt 1234567) = Raise ValueError.
 Proof. vm_compute. split; reflexivity. Qed.
+Example ex_line_length : exists line, write_values ex_specs [XStr (s2l "dfalt"); XInt 2; XReal true 3 (-1); XReal false 1 (-2)] = Ok line /\ length line = 30%nat.
+Proof. eexists. split; [vm_compute; reflexivity|reflexivity]. Qed.
